@@ -21,6 +21,8 @@ import (
 type c07Case struct {
 	Mode string `json:"mode"` // roundtrip | feature | fc | doc
 	G    *ref.G `json:"g,omitempty"`
+	// roundtrip: encode options, 0 none, 1 bounding box, 2 CRS, 3 both
+	Opt int `json:"opt,omitempty"`
 	// feature
 	ID    string `json:"id,omitempty"`
 	BBox  int    `json:"bbox,omitempty"`  // 0 none, 1 XY, 2 XYZ
@@ -64,6 +66,25 @@ func init() {
 		Replay:      func(c *engine.Ctx, kind string, raw json.RawMessage) { c07Exec(c, decodeCase[c07Case](raw)) },
 		Assumptions: []string{"finite ordinates; geojson.DefaultLayout at its default XY; encoding/json and ref.ParseGeoJSON trusted"},
 	})
+}
+
+// c07BBoxable: the bounding-box option can be served - the geometry's covering layout is one of the
+// four named ones and X, Y (and Z when the layout has it) have data.
+func c07BBoxable(g *ref.G) bool {
+	t := g.MustBuild()
+	l := t.Layout()
+	if l == geom.NoLayout || l > geom.XYZM || g.NumOrdinates() == 0 {
+		return false
+	}
+	acc := dimAcc{}
+	foldModel(g, acc)
+	if _, ok := acc["x"]; !ok {
+		return false
+	}
+	if _, ok := acc["z"]; !ok && l.ZIndex() >= 0 {
+		return false
+	}
+	return true
 }
 
 // c07Expect computes the decoded model the format allows, or mustErr.
@@ -209,7 +230,14 @@ func c07Exec(c *engine.Ctx, cs c07Case) {
 		var data []byte
 		var err error
 		failGeoJSON() // two-call history: a failed encode first (see poison.go)
-		if p, stack := engine.Guard(func() { data, err = geojson.Marshal(t) }); p != nil {
+		var opts []geojson.EncodeGeometryOption
+		if cs.Opt&1 != 0 {
+			opts = append(opts, geojson.EncodeGeometryWithBBox())
+		}
+		if cs.Opt&2 != 0 {
+			opts = append(opts, geojson.EncodeGeometryWithCRS(&geojson.CRS{Type: "name", Properties: map[string]interface{}{"name": "urn:ogc:def:crs:OGC:1.3:CRS84"}}))
+		}
+		if p, stack := engine.Guard(func() { data, err = geojson.Marshal(t, opts...) }); p != nil {
 			fail("marshal-panic", fmt.Sprintf("Marshal panicked: %v\n%s", p, firstLines(stack, 10)))
 			return
 		}
@@ -235,7 +263,7 @@ func c07Exec(c *engine.Ctx, cs c07Case) {
 					derr = geojson.Unmarshal(data, &back)
 				} else {
 					var gg *geojson.Geometry
-					gg, derr = geojson.Encode(t)
+					gg, derr = geojson.Encode(t, opts...)
 					if derr == nil {
 						back, derr = gg.Decode()
 					}
@@ -535,6 +563,19 @@ func c07Run(c *engine.Ctx) {
 	}
 	c.Note("geometries", len(corpus))
 	c.Parallel(len(corpus), func(i int) { c07Exec(c, c07Case{Mode: "roundtrip", G: corpus[i]}) })
+	// the same round trips with the encoder's options (a bounding box, a CRS member, both): the
+	// library's own output must still read back as the same geometry. A bounding box only where
+	// every dimension it carries has data (see C08).
+	c.Parallel(len(corpus), func(i int) {
+		g := corpus[i]
+		for opt := 1; opt <= 3; opt++ {
+			if opt&1 != 0 && !c07BBoxable(g) {
+				continue
+			}
+			c.Count("option_roundtrips", 1)
+			c07Exec(c, c07Case{Mode: "roundtrip", G: g, Opt: opt})
+		}
+	})
 	// (b) features
 	geoms := []*ref.G{nil,
 		ref.NewPoint(geom.XY, true, ref.Counter()), ref.NewLine(ref.LineString, geom.XYZ, 2, ref.Counter()),
